@@ -329,13 +329,13 @@ def shards(tier, seed):
         unit("unit-n4-m4-01-b", 120, n=4, m=4, fixed=[[0, 1]], src_range={"1": [2, 3]})
         # layer 2: n = 3 complete (all 2^9 relations incl. self-loops), every slot, every container/style
         for c in CONTAINERS:
-            api(f"api-n3-{c}", 150, n=3, container=c, style=STYLES, slot="none", pair_mode="all")
-        api("api-n3-slots-a", 150, n=3, container="tn", style="strictly_before", slot=SLOTS[1:5], pair_mode="all")
-        api("api-n3-slots-b", 150, n=3, container="method", style="add_lt", slot=SLOTS[5:9], pair_mode="all")
-        api("api-n3-slots-c", 150, n=3, container="tn", style="set_ordered", slot=SLOTS[9:], pair_mode="all")
-        api("api-n4-forward-renamed", 100, n=4, container="tn", style="strictly_before", slot="none", pair_mode="forward", rename="choice")
-        api("api-n4-forward-renamed-method", 100, n=4, container="method", style="set_ordered", slot="none", pair_mode="forward", rename="choice")
-        api("api-n012", 100, n=[0, 1, 2], container=CONTAINERS, style=STYLES, slot=["none", "nontemporal", "delay-lhs", "le"], pair_mode="all")
+            api(f"api-n3-{c}", 400, n=3, container=c, style=STYLES, slot="none", pair_mode="all")
+        api("api-n3-slots-a", 400, n=3, container="tn", style="strictly_before", slot=SLOTS[1:5], pair_mode="all")
+        api("api-n3-slots-b", 400, n=3, container="method", style="add_lt", slot=SLOTS[5:9], pair_mode="all")
+        api("api-n3-slots-c", 400, n=3, container="tn", style="set_ordered", slot=SLOTS[9:], pair_mode="all")
+        api("api-n4-forward-renamed", 400, n=4, container="tn", style="strictly_before", slot="none", pair_mode="forward", rename="choice")
+        api("api-n4-forward-renamed-method", 400, n=4, container="method", style="set_ordered", slot="none", pair_mode="forward", rename="choice")
+        api("api-n012", 400, n=[0, 1, 2], container=CONTAINERS, style=STYLES, slot=["none", "nontemporal", "delay-lhs", "le"], pair_mode="all")
     else:
         for a in range(4):
             for b in range(4):
@@ -363,7 +363,7 @@ def shards(tier, seed):
 
 
 MANIFEST = dict(
-    engine="symex+direct",
+    engine="symex",  # layer 1; the layer-2 shards declare engine="direct" themselves
     technique="layer 1: symbolic execution (CrossHair/z3) of _build_total_order with symbolic precedence endpoints, oracle 'exactly one consistent permutation' as one solver query per path; "
               "layer 2: bounded-exhaustive re-execution of the TaskNetwork/Method API over choice variables with an enumeration oracle",
     text="Bounded model checking. Layer 1: for EVERY assignment of the 2m precedence endpoints in [0,n) (n<=4, m<=5; self-loops, duplicates, cycles) the real _build_total_order returns a list "
